@@ -22,3 +22,16 @@ Q("own-evicted-buffers-dropped", "bfgsmats.py",
   "        X.popleft()\n        G.popleft()\n",
   "        _x_old, _g_old = X.popleft(), G.popleft()\n        del _x_old, _g_old\n",
   ["OWN"], note="taking the evicted arrays out without writing them is not a write")
+
+# findings 22 and 23 are open: the rules report the unmodified tree (KNOWN-FINDING); these are the *repaired* forms,
+# on which the rules must be silent
+Q("fdfixed-masked-component", "scalar_function.py",
+  "                    fun_wrapped, self.x, f0=self.f, **finite_diff_options\n                )\n",
+  "                    fun_wrapped, self.x, f0=self.f, **finite_diff_options\n                )\n"
+  "                self.g[np.equal(finite_diff_bounds[0], finite_diff_bounds[1])] = 0.0\n",
+  ["FDFIXED"], note="the component of a variable fixed by lb == ub is masked after the differencing")
+Q("cholguard-handled", "bfgsmats.py",
+  "    J = sp.linalg.cholesky(theta * STS + L @ invD @ L.T, lower=True)\n",
+  "    try:\n        J = sp.linalg.cholesky(theta * STS + L @ invD @ L.T, lower=True)\n"
+  "    except np.linalg.LinAlgError:\n        return None\n",
+  ["CHOLGUARD"], note="the failure is handled (the caller would refresh the memory on None)")
